@@ -9,3 +9,14 @@ func Model_time_Now() time.Time {
 	modelClock++
 	return time.Unix(modelClock, 0)
 }
+
+// Timers never fire on their own ("deadlines fire only when the harness fires them", DESIGN.md §3.2).
+
+//gosmt:model time.AfterFunc
+func Model_time_AfterFunc(d time.Duration, f func()) *time.Timer { return &time.Timer{} }
+
+//gosmt:model (*time.Timer).Stop
+func Model_time_Timer_Stop(t *time.Timer) bool { return true }
+
+//gosmt:model time.Until
+func Model_time_Until(t time.Time) time.Duration { return time.Hour }
